@@ -12,7 +12,8 @@ import (
 
 // C07: the library never panics (or hangs), whatever configuration text or traffic it is given.
 //
-// Population: (1) a systematic sweep that uses every registered directive, action, operator,
+// Population: (4, c07_fi.go) structured configurations combining stateful features pairwise / in triples,
+// (1) a systematic sweep that uses every registered directive, action, operator,
 // transformation and variable name in every documented spelling / argument shape, (2) random
 // compositions of the same material, (3) byte-level mutants of both; every accepted configuration
 // receives generated requests/responses through enumerated call sequences. Oracle: recover()
@@ -267,12 +268,16 @@ func c07Run(w *fw.W, b fw.Batch) {
 		rn.cov[i] = map[string]bool{}
 	}
 	rn.seqIdx = w.Rng.IntN(len(c07Sequences))
+	tStart := c07ThreadCPU()
 	sweep := c07Sweep(&rn.voc, w.Rng)
 	w.Max("sweep_size", int64(len(sweep)))
 	w.Count("panics", 0)
 	w.Count("cpu_bound_exceeded", 0)
 	w.Count("configs_panicked", 0)
 	n := 0
+	if os.Getenv("C07_FI_ONLY") == "1" { // development aid: only the feature-interaction population
+		sweep, rn.sz.random = nil, 0
+	}
 	for i, c := range sweep {
 		if i%p.Parts != p.Part {
 			continue
@@ -290,6 +295,14 @@ func c07Run(w *fw.W, b fw.Batch) {
 		rn.x.flushCounters()
 	}
 	w.Count("random_configs", rn.sz.random)
+	// feature-interaction population (c07_fi.go)
+	tMain := c07ThreadCPU()
+	if os.Getenv("C07_FI_ONLY") != "no" { // development aid: "no" leaves it out (cost measurements)
+		c07RunFI(rn, p.Part, p.Parts)
+	}
+	// evidence only: CPU time of the executing thread spent in the two populations
+	w.Count("thread_cpu_ms/sweep_random_mutants", int((tMain - tStart).Milliseconds()))
+	w.Count("thread_cpu_ms/feature_interaction", int((c07ThreadCPU() - tMain).Milliseconds()))
 	// report coverage
 	rec := map[string][]string{}
 	for reg := range rn.cov {
@@ -309,6 +322,7 @@ func c07Run(w *fw.W, b fw.Batch) {
 }
 
 func c07Finish(d *fw.D) {
+	c07fiFinish(d)
 	voc := c07LoadVocab()
 	cov := map[string]map[string]bool{}
 	for _, rec := range d.Records {
@@ -393,7 +407,7 @@ func c07Replay(w *fw.W, raw json.RawMessage) {
 func init() {
 	fw.Register(&fw.Prop{
 		ID: "C07", Level: "exploration",
-		Rule: "population = (1) a systematic sweep using every registered directive, action, operator, transformation and variable name (vocabulary read from the library's registries at run time) in every documented spelling and argument shape (valid and odd), incl. setvar deletion / no value, counts and regex keys on every collection, %{VAR} and %{VAR.key} macros for every variable in msg, logdata, setvar, setenv and operator arguments, every ctl option, SecRuleRemoveBy*/SecRuleUpdate* over rule sets with msg-less rules, markers and chains, SecDefaultAction, data files and Include through an fs.FS root; (2) random compositions of the same material; (3) byte-level mutants (delete/duplicate/replace/insert one byte or delimiter, swap two tokens, join lines, one line truncated at every offset). Every accepted configuration receives generated requests/responses (bodies: urlencoded, multipart, JSON, XML, raw, mismatched; response bodies with response body access on) through enumerated call sequences (standard, each call skipped, each call repeated, body writes before/after their phase, phases out of order, random walks), Close always last. Monitors: recover() around NewWAF and every Transaction call, process-fatal errors via the child process, CPU time per call on the executing thread against a 20 s bound. A case is non-trivial when its configuration was accepted and a transaction was executed on it; distinct by hash of (configuration text, call sequence, URI, bodies).",
+		Rule: "population = (1) a systematic sweep using every registered directive, action, operator, transformation and variable name (vocabulary read from the library's registries at run time) in every documented spelling and argument shape (valid and odd), incl. setvar deletion / no value, counts and regex keys on every collection, %{VAR} and %{VAR.key} macros for every variable in msg, logdata, setvar, setenv and operator arguments, every ctl option, SecRuleRemoveBy*/SecRuleUpdate* over rule sets with msg-less rules, markers and chains, SecDefaultAction, data files and Include through an fs.FS root; (2) random compositions of the same material; (3) byte-level mutants (delete/duplicate/replace/insert one byte or delimiter, swap two tokens, join lines, one line truncated at every offset). Every accepted configuration receives generated requests/responses (bodies: urlencoded, multipart, JSON, XML, raw, mismatched; response bodies with response body access on) through enumerated call sequences (standard, each call skipped, each call repeated, body writes before/after their phase, phases out of order, random walks), Close always last. (4) Feature-interaction population (c07_fi.go): valid structured configurations assembled from a catalogue of stateful features: settings values in 13 dimensions (SecRuleEngine On/DetectionOnly/Off; SecAuditEngine On/Off/RelevantOnly; SecAuditLogRelevantStatus restrictive/any; audit parts default/all/minimal; formats JSON/JsonLegacy/Native/OCSF; writers verifmem (in memory), Serial on /dev/null, Concurrent in the scratch directory; request and response body access On/Off; request and response body limits with both limit actions; in-memory limit; SecDefaultAction per phase interrupting/allow/pass; body-processor selection rules) and rule features (deny, drop, redirect, block, allow / allow:phase / allow:request, pass; ctl:ruleEngine and ctl:auditEngine with each value, ctl:auditLogParts, ctl:requestBodyAccess / responseBodyAccess with each value, ctl:requestBodyProcessor / responseBodyProcessor, ctl:forceRequestBodyVariable / forceResponseBodyVariable, ctl:requestBodyLimit / responseBodyLimit, ctl:ruleRemoveById/ByTag/ByMsg, ctl:ruleRemoveTargetById/ByTag/ByMsg; skip; skipAfter with markers placed later (or missing); setvar / expirevar / initcol / setenv with macros; capture; multiMatch with transformations; logdata with macros; auditlog; noauditlog). A configuration takes at most one value per dimension and 5-10 rule features; each rule feature sits in a random phase 1-5 (switches that matter at logging time preferably late, body switches preferably early), as SecRule, SecAction or chain starter (non-disruptive actions also on the chain link), now and then two features on one rule; each rule is steerable from the request (argument f<k>, header X-F<k>, body token in urlencoded / JSON / XML / multipart / raw bodies, response header, response body token; chain links by c<k> / X-C<k>). The first configurations are a greedy covering design in which EVERY PAIR of compatible catalogue features is configured together (the same list in every batch, derived from the seed; each batch executes its share), the others are random combinations (triples). Every configuration receives transactions whose steering switches on all, a random half, or 2-3 of its rules, through the standard sequence (half of them) or truncated / reordered ones: headers only, body without headers, logging twice / first / never, Close twice, response phases without request phases, the whole cycle again after logging, further calls after an interruption, reader entry points, sequences of the main list, random walks. The evidence reports how many pairs and triples of features were configured together and how many FIRED together in one transaction (a rule feature fired when the head rule of its slot is in tx.MatchedRules(); a settings feature when the call it governs was executed: a phase call / ProcessLogging / a non-empty body write / any match for SecDefaultAction); fi_pairs_all_configured, fi_features_all_fired and fi_configs_all_accepted are required. Monitors: recover() around NewWAF and every Transaction call, process-fatal errors via the child process, CPU time per call on the executing thread against a 20 s bound. A case is non-trivial when its configuration was accepted and a transaction was executed on it; distinct by hash of (configuration text, call sequence, URI, bodies).",
 		Assumptions: []string{
 			"absence of panics is established for the generated population only; the evidence lists the names covered per registry and names_missing must be empty",
 			"'never hangs' is judged as: no single API call on an input <= 64 KiB consumes more than 20 CPU-seconds; a wall-clock watchdog firing is inconclusive",
@@ -403,9 +417,11 @@ func init() {
 			"kept out of the population (candidate known finding, notes/findings/C07.md): audit logging with parts H and K of a rule that matched hundreds of values costs ProcessLogging super-linear CPU (class cpu:ProcessLogging); configurations mentioning the audit engine get JSON/XML bodies nested at most 48 levels so that one rule matches few values",
 			"kept out of the population (candidate known finding, notes/findings/C07.md): the JSON body processor builds one key per nesting level by copying the parent key (quadratic in the depth); response bodies have no depth limit (the repository's own test pins that), so a 32 KiB response of '[' costs > 15 CPU-s in ProcessResponseBody (class cpu:ProcessResponseBody). Generated bodies are cut at 2048 unclosed brackets and SecRequestBodyJsonDepthLimit is swept up to 2000",
 			"the two listed known findings (known_findings.json: auditlog-hk-amplification, json-depth-quadratic) are replayed in one extra batch per run, each witness in a child process that stops observing once the monitored call has used 20 CPU-s on its thread; only these witnesses can produce the classes cpu:ProcessLogging:auditlog-hk-witness and cpu:ProcessResponseBody:json-depth-witness, every other input that exceeds the bound is reported as cpu:<call> or cpu:<call>:still-running",
+			"feature-interaction population: pairs that exclude each other never fire together and are listed in the evidence (fi_pairs_never_fired_together_list: SecRuleEngine Off with any rule feature); a configuration of this population that the library rejects makes the run inconclusive (fi_configs_all_accepted), its reason is in fi_rejected_reason/*",
 			"@inspectFile is given a non-existent program path and @rbl an .invalid zone: no external program or network is needed",
 		},
-		Required: []string{"names_complete", "configs_accepted", "configs_rejected", "mutants_accepted", "transactions", "transactions_with_matched_rules", "transactions_interrupted"},
+		Required: []string{"names_complete", "configs_accepted", "configs_rejected", "mutants_accepted", "transactions", "transactions_with_matched_rules", "transactions_interrupted",
+			"fi_configs_all_accepted", "fi_pairs_all_configured", "fi_features_all_fired", "fi_pairs_fired_together", "fi_triples_fired_together", "fi_transactions_interrupted", "fi_audit_records_verifmem"},
 		Plan: func(tier fw.Tier, seed int64) []fw.Batch {
 			sz := c07SizesFor(tier)
 			var bs []fw.Batch
